@@ -20,6 +20,7 @@ DICT_ANY_POOL = [{}, {"k": None}, {"type": "object", "properties": {"a": {"type"
                  {"n": 1, "f": 1.0, "b": True, "s": "123", "l": [None, 1], "d": {"x": None}}, {"_meta": {"progressToken": 7}}]
 
 
+SPEC_RANGES = {"priority": (0, 1), "costPriority": (0, 1), "speedPriority": (0, 1), "intelligencePriority": (0, 1)}
 SPEC_WIRE_NAMES = {"meta": "_meta", "schema_": "schema"}
 
 
@@ -136,6 +137,11 @@ class Gen:
 
     def field_values(self, cls, attr: str, ann: Any) -> List[Any]:
         f = cls.model_fields.get(attr)
+        if attr in SPEC_RANGES:
+            # the valid domain of these members is pinned from the MCP schema (inclusive bounds), not read from
+            # the declaration under test: a tightened or loosened bound must show up as a behaviour difference
+            lo, hi = SPEC_RANGES[attr]
+            return [lo, float(lo), (lo + hi) / 2, hi, float(hi), lo + (hi - lo) / 4]
         vs = self.values(ann, attr)
         if f is not None and getattr(f, "metadata", None):
             vs = self.constrained(f, vs + [0, 0.5, 1])
@@ -265,7 +271,15 @@ def invariant_cases() -> List[Dict[str, Any]]:
     """Documented model invariants with inputs on both sides of each."""
     roots = "chuk_mcp.protocol.messages.roots.send_messages:Root"
     comp = "chuk_mcp.protocol.messages.completions.send_messages:CompletionResult"
-    return [
+    mp = "chuk_mcp.protocol.messages.sampling.send_messages:ModelPreferences"
+    ann = "chuk_mcp.protocol.types.content:Annotations"
+    ranges = []
+    for cls, names in ((mp, ("costPriority", "speedPriority", "intelligencePriority")), (ann, ("priority",))):
+        for nm in names:
+            for v, valid in ((0, True), (0.0, True), (1, True), (1.0, True), (0.5, True), (5e-324, True),
+                             (-0.0, True), (-1e-9, False), (1.0000001, False), (-1, False), (2, False)):
+                ranges.append({"kind": "invariant", "cls": cls, "wire": {nm: v}, "valid": valid})
+    return ranges + [
         {"kind": "invariant", "cls": roots, "wire": {"uri": "file:///ok"}, "valid": True},
         {"kind": "invariant", "cls": roots, "wire": {"uri": "https://example.com/x"}, "valid": False},
         {"kind": "invariant", "cls": roots, "wire": {"uri": "/plain/path", "name": "n"}, "valid": False},
